@@ -15,7 +15,7 @@ from ..gen import mutate as gm
 
 PID = "C20"
 SHARDS = {"quick": 8, "thorough": 16}
-CFG = {"mode": "strict", "extra": True, "twice": True}
+CFG = {"mode": "strict", "extra": True, "twice": True, "flags": {"logical_not_operator": True, "logical_parentheses": True, "ternary_expressions": True}}
 
 _ROOT_BRACKET = re.compile(r"\[\s*(['\"])")
 
